@@ -382,6 +382,9 @@ static void do_emit_long(const char *round, char *facs, unsigned int len)
     unsigned int ii;
     for (ii = 0; ii < len; ++ii)
         pad[ii] = (char)('0' + ii % 10);
+    /* a carriage return in the middle of the text (free text that came off the wire may hold one): part of the message, not its end */
+    if (len >= 16)
+        pad[len / 2] = '\r';
     pad[len] = '\0';
     for (fac = strtok_r(facs, ",", &save); fac; fac = strtok_r(NULL, ",", &save)) {
         char *name = pct_decode(fac, NULL);
